@@ -24,9 +24,10 @@ import (
 
 func TestC13VirtualTime(t *testing.T) {
 	sub := lab.Sub("accounting-virtual-time", "rapid histories in virtual time against the real balancer with scripted backends: {request good/4xx/5xx/unreachable/abort-mid-body, request with an already cancelled client context, "+
-		"park a request in a backend, release it (good/5xx), remove and re-register a backend (also while requests are parked in it), advance 300ms..3s across 1 s unhealthy windows and the 1 s breaker timeout}, passive checks (threshold 1-2, window 1 s) / limiter / breaker on or off, 5 strategies, 1-3 backends; "+
+		"park a request in a backend in a drawn phase (before the response head / after the head and before any body byte / after body part k of n, k,n-k in 1..3), release it (good / 5xx resp. broken body), remove and re-register a backend (also while requests are parked in it), advance 300ms..3s across 1 s unhealthy windows and the 1 s breaker timeout}, passive checks (threshold 1-2, window 1 s) / limiter / breaker on or off, 5 strategies, 1-3 backends; "+
 		"books A1-A4 checked after every event; non-trivial = a request was still parked when its backend was ejected or re-admitted, or a cancelled-context / aborted request occurred")
 	sub.NontrivialFloor(0.40)
+	sub.Floor("books-read-with-request-parked-after-head", 0.20)
 	lab.Assume("L1: scripted RoundTripper replaces http.Transport; ErrAbortHandler recovered by the harness as net/http's server would")
 	maxLen := lab.Scale(40, 80)
 	lab.Check(t, sub, 3000, 100000, func(rt *rapid.T) {
@@ -61,10 +62,11 @@ func TestC13VirtualTime(t *testing.T) {
 		var hist []string
 		var viol string
 		interesting := false
+		parkedAfterHead := false
 		rapid.SyncTest(rt, func(rt *rapid.T) {
 			defer func() { fn.ReleaseAll(); synctest.Wait() }()
 			sent, completed, limited := 0, 0, 0
-			done := map[string]int{}   // completed arrivals per host
+			done := map[string]int{}      // completed arrivals per host
 			parked := map[string]int{}    // requests parked in the currently registered instance, per host
 			parkedOld := map[string]int{} // requests still parked in an instance that has been removed since (same name)
 			gen := map[string]int{}       // how often the backend of this host was removed and re-registered
@@ -72,6 +74,7 @@ func TestC13VirtualTime(t *testing.T) {
 				host string
 				ch   chan int
 				gen  int
+				ph   int // phase the request is parked in (0 before the response head, 1 after it, 2 mid-body)
 			}
 			var holds []held
 			books := func(when string) string {
@@ -151,9 +154,25 @@ func TestC13VirtualTime(t *testing.T) {
 					}
 					interesting = true
 					hist = append(hist, fmt.Sprintf("req(ctx-cancelled)->%d", st))
-				case k < 65: // park
+				case k < 65: // park a request in one of the phases of an exchange
+					// phase 0: the backend has not answered anything yet; 1: it has sent its response head and no
+					// body byte (quiet event stream / long poll); 2: it has sent the head and the first k of n body
+					// parts (download / stream that stalls mid-body). The request is in flight in all of them.
+					phase := rapid.IntRange(0, 2).Draw(rt, "phase")
+					pb, pname := lab.Park, "before-head"
+					k1, k2 := 0, 0
+					switch phase {
+					case 1:
+						pb, pname = lab.ParkHead, "after-head"
+						k2 = rapid.IntRange(1, 3).Draw(rt, "tail")
+					case 2:
+						pb = lab.ParkMidBody
+						k1, k2 = rapid.IntRange(1, 3).Draw(rt, "k"), rapid.IntRange(1, 3).Draw(rt, "tail")
+						pname = fmt.Sprintf("after-part-%d-of-%d", k1, k1+k2)
+					}
 					for i := 0; i < nb; i++ {
-						fn.Set(lab.BackendHost(i), lab.Park)
+						fn.Set(lab.BackendHost(i), pb)
+						fn.SetParkParts(lab.BackendHost(i), k1, k2)
 					}
 					before := fn.Arrivals()
 					ch := make(chan int, 1)
@@ -169,12 +188,15 @@ func TestC13VirtualTime(t *testing.T) {
 						if st == 429 && limiter {
 							limited += btoi(isRateLimit(lb, limited))
 						}
-						hist = append(hist, fmt.Sprintf("park->not-dispatched(%d)", st))
+						hist = append(hist, fmt.Sprintf("park(%s)->not-dispatched(%d)", pname, st))
 					} else {
 						h := fn.HostAt(before)
 						parked[h]++
-						holds = append(holds, held{h, ch, gen[h]})
-						hist = append(hist, "park->"+h)
+						holds = append(holds, held{h, ch, gen[h], phase})
+						hist = append(hist, "park("+pname+")->"+h)
+						if phase > 0 {
+							parkedAfterHead = true
+						}
 					}
 				case k < 78: // release
 					if len(holds) == 0 {
@@ -190,6 +212,9 @@ func TestC13VirtualTime(t *testing.T) {
 					h := holds[j]
 					holds = append(holds[:j:j], holds[j+1:]...)
 					as := rapid.SampledFrom([]lab.Behaviour{lab.Good, lab.Status5xx}).Draw(rt, "as")
+					if h.ph > 0 && as == lab.Status5xx {
+						as = lab.AbortBody // the status line is out already: the bad ending of a started response is a broken body
+					}
 					fn.Release(h.host, as)
 					synctest.Wait()
 					<-h.ch
@@ -239,6 +264,9 @@ func TestC13VirtualTime(t *testing.T) {
 		}
 		if breaker {
 			labels = append(labels, "breaker")
+		}
+		if parkedAfterHead {
+			labels = append(labels, "books-read-with-request-parked-after-head")
 		}
 		sub.Case(map[string]any{"strategy": strategy, "backends": nb, "passive": passive, "threshold": threshold, "limiter": limiter, "breaker": breaker, "history": hist}, interesting, labels...)
 		if viol != "" {
